@@ -1,6 +1,6 @@
 (* Properties/C08.v -- a template means the same on every compilation and rendering path *)
 From Coq Require Import Permutation.
-From MakoV Require Import Lib.Str Gen.Unicode Model.Paths8 Proofs.Paths8Proofs.
+From MakoV Require Import Lib.Str Gen.Unicode Model.Paths8 Proofs.Paths8Proofs Proofs.EmitOrder.
 Open Scope N_scope.
 
 (* the PYTHONHASHSEED clause: whatever order the hoisted declarations are emitted in, every name is
@@ -9,6 +9,19 @@ Theorem C08_decl_order_irrelevant : forall V (src : N -> V) names names' env,
   Permutation names names' -> forall x, assocN x (run_decls src names env) = assocN x (run_decls src names' env).
 Proof. intros V. exact (@decl_order_irrelevant V). Qed.
 Print Assumptions C08_decl_order_irrelevant.
+
+(* ... and the generated text itself: the sequence of hoisted lines (context look-ups first, then closures and def stubs, each
+   group sorted) is a function of the SETS of names, whatever order a set is iterated in; so is the missing name that a
+   strict_undefined template reports *)
+Theorem C08_emitted_independent_of_set_order : forall names names' defs defs',
+  Permutation names names' -> Permutation defs defs' -> emitted names defs = emitted names' defs'.
+Proof. exact emitted_independent_of_set_order. Qed.
+Print Assumptions C08_emitted_independent_of_set_order.
+
+Theorem C08_first_missing_independent_of_set_order : forall have names names' defs defs',
+  Permutation names names' -> Permutation defs defs' -> first_missing have names defs = first_missing have names' defs'.
+Proof. exact first_missing_independent_of_set_order. Qed.
+Print Assumptions C08_first_missing_independent_of_set_order.
 
 Theorem C08_registry_own_source_partial : forall r u t later,
   (forall u' t', In (u', t') later -> module_id u' <> module_id u) ->
